@@ -8,9 +8,11 @@
 #include "romea_core_common/diagnostic/CheckupRate.hpp"
 
 using namespace romea::core;
-static const std::string NAME = "thing";
+// the monitored quantity's name changes from one object to the next (none is a substring of another): a message must name its own
+static const std::vector<std::string> NAMES = {"thing", "speed", "voltage", "alpha"};
+static size_t g_nextName = 0;
 
-static std::string verdictOf(const std::string & msg, bool & named)
+static std::string verdictOf(const std::string & msg, bool & named, const std::string & NAME)
 {
   static const std::pair<const char *, const char *> ends[] = {
     {" is too low.", "low"}, {" is too high.", "high"}, {" is OK.", "ok"}, {" timeout.", "timeout"}};
@@ -36,6 +38,7 @@ struct Obj
   std::unique_ptr<RateMonitoring> mon;
   std::unique_ptr<CheckupEqualToRate> eq;
   std::unique_ptr<CheckupGreaterThanRate> gt;
+  std::string NAME = NAMES[g_nextName++ % NAMES.size()];
   Obj(const std::string & k, long long r8, long long e8, long long t)
   : kind(k), rate8(r8), eps8(e8), T(t), tickNs(1000000000LL / t)
   {
@@ -62,8 +65,8 @@ struct Obj
     DiagnosticReport r = eq ? eq->getReport() : gt->getReport();
     bool named = false;
     const Diagnostic & d = r.diagnostics.front();
-    e.i("status", (int)d.status).str("verdict", verdictOf(d.message, named));
-    e.b("named", named && r.diagnostics.size() == 1 && r.info.size() == 1);
+    e.i("status", (int)d.status).str("verdict", verdictOf(d.message, named, NAME));
+    e.b("named", named && r.diagnostics.size() == 1 && r.info.size() == 1 && r.info.begin()->first.find(NAME) == 0);
     const std::string & info = r.info.begin()->second;
     bool has = !info.empty();
     long long vs = -1;
